@@ -139,7 +139,7 @@ PROPS["C17"]["kinds"] = ["reply", "c17conv"]
 
 PROPS["C17"]["kinds"] = ["reply", "c17conv", "trip"]
 TRIP_TB = ["the trip runs use the real Client and the real Server over net.Pipe; their judgement (CheckTrip.v) is the property text applied to the recorded API inputs, results and backend observations - no model of the composition is involved in it"]
-conv_prop("C14", ["trip"], "trip(C14): every string of a 21-element pool of encoding-significant strings ('+', '=', space, backslash, braces, 'x{41}', hexchar look-alikes, DEL, TAB, 2/3/4-byte UTF-8, empty) in ENVID, AUTH (as local part of a mailbox; empty = <>), ORCPT rfc822 and ORCPT utf-8 x server with/without SMTPUTF8 (unitext vs xtext form) x Size {1, 2^32, 2^63-1, 1000}, UTF8, RET, NOTIFY sets, RRVS instants in 5 zones; address shapes incl. the injection shapes of F25; MailOptions.Body {unset, 7BIT, 8BITMIME, BINARYMIME, wrong case, unknown} x server with/without BINARYMIME x {alone, with every other MAIL option, followed by RCPT and DATA}. Oracle: the backend's Mail/Rcpt arguments equal what the caller passed, Body included (an unset Body may arrive as 8BITMIME, the client's documented default).")
+conv_prop("C14", ["trip"], "trip(C14): every string of a 21-element pool of encoding-significant strings ('+', '=', space, backslash, braces, 'x{41}', hexchar look-alikes, DEL, TAB, 2/3/4-byte UTF-8, empty) in ENVID, AUTH (as local part of a mailbox; empty = <>), ORCPT rfc822 and ORCPT utf-8 x server with/without SMTPUTF8 (unitext vs xtext form) x Size {1, 2^32, 2^63-1, 1000}, UTF8, RET, NOTIFY sets, RRVS instants in 5 zones; each of the 19 non-ASCII Unicode White_Space code points (U+0085, U+00A0, U+1680, U+2000-200A, U+2028/9, U+202F, U+205F, U+3000) at the start, in the middle and at the end of a utf-8 ORCPT x server with/without SMTPUTF8 (trip: the backend must see the value unchanged; cli: the line written must equal the model's, which embeds them as \\x{HEX}); address shapes incl. the injection shapes of F25; MailOptions.Body {unset, 7BIT, 8BITMIME, BINARYMIME, wrong case, unknown} x server with/without BINARYMIME x {alone, with every other MAIL option, followed by RCPT and DATA}. Oracle: the backend's Mail/Rcpt arguments equal what the caller passed, Body included (an unset Body may arrive as 8BITMIME, the client's documented default).")
 PROPS["C14"]["trusted_base"] = TRIP_TB
 conv_prop("C16", ["trip"], "trip(C16): all bodies over the tokens {'.', LF, CRLF, 'x'} up to length 5 (7 thorough; every third one beyond length 3 in quick) + 40 random 8-bit bodies with an embedded CRLF.CRLF + bait command x Write partitions {one call, byte by byte, random 2-split} x verdict {accept, reject} x {SMTP, LMTP} x Close once/twice. Oracle: backend octets = normalise(body), envelope as given, Close = verdict, second Close is a local error, and the octets that crossed end with exactly dot_write(body) NOOP QUIT (no second exchange).")
 PROPS["C16"]["trusted_base"] = TRIP_TB
